@@ -321,6 +321,17 @@ def run(ctx):
                     if all(("time.time()" in p_) or p_ == "%s != -1" % tmo for p_ in parts):
                         ok = True
         only_untimed = any(p2 and U(e) == "%s == -1" % tmo for e, p2 in C.facts_at(c))
+        if ok and not only_untimed:
+            # the deadline is only tested when the generator yields: it must not be able to search for long without yielding.
+            # On the acyclic doubled graph that holds when the search is confined to the nodes lying on a source->target path
+            # (every branch of the enumeration then ends in a path).
+            from . import c05
+            restr = c05.searched_graph(fi, c)[3]
+            ctx.judge(restr == "on-path", restr != "?", "R6", "the enumeration yields regularly (search confined to nodes on a source->target path)",
+                      fi.where(c), "the deadline is tested once per path found, but `%s` explores every branch of the whole graph: when the "
+                      "root's copy in the next iteration is unreachable, or reachable through few of many branches, the generator runs for "
+                      "an exponential time without yielding and --lcd-timeout is not honoured (sequential search, kernels below "
+                      "INSTRUCTION_THRESHOLD)" % U(c)[:90], fi.qname, "yield-bounded enumeration")
         if ok or only_untimed:
             ctx.node_ok("R6", fi, c, "generator is consumed by a loop that tests the deadline in every iteration")
         else:
